@@ -72,6 +72,8 @@ class ScheduledRun:
     stop_event_set_at: int | None = None  # logical time at which the engine's stop event became set (any cause)
     worker_errors: list = field(default_factory=list)
     hits: dict = field(default_factory=dict)
+    put_times: dict = field(default_factory=dict)  # id(event) -> logical time at which its producer queued it
+    _keepalive: list = field(default_factory=list)
 
 
 def engine_body(doc: dict, make_config: Callable[[], Any], handler_factory: Callable[[], httpseam.Handler], *,
@@ -119,6 +121,8 @@ def engine_body(doc: dict, make_config: Callable[[], Any], handler_factory: Call
                     cleanup()
             run.exchanges = list(log.exchanges)
             run.hits = dict(hits)
+            run.put_times = {id(item): t for item, t in sched.put_log}
+            run._keepalive = [item for item, _ in sched.put_log]  # ids stay unique while the objects live
             stop_event = getattr(stream, "stop_event", None) if "stream" in locals() else None
             if stop_event is not None:
                 run.stop_event_set_at = getattr(stop_event, "set_at", None)
